@@ -29,5 +29,5 @@ func VerifC18_DRAM() {
 	}
 	top := mk("Top", 4)
 	ctrl := mk("Control", 2)
-	c18RunMem(comp.Tick, top, ctrl, &comp.State.ControlState, func() int { return len(comp.State.Transactions) }, 60, verifrt.Bound("data-reads", 1, 2))
+	c18RunMem(comp.Tick, top, ctrl, &comp.State.ControlState, func() int { return len(comp.State.Transactions) }, 60, verifrt.Bound("data-reads", 1, 2), 2)
 }
